@@ -85,6 +85,11 @@ func (ex *Exec) callWith(fr *Frame, st *State, c *ssa.CallCommon, fnv Value, arg
 			fn = f
 		}
 	}
+	if fn == nil && typeStr(c.Value.Type()) == "context.CancelFunc" {
+		// cancelling a context touches only the context's own bookkeeping (assumed)
+		ex.warn("context.CancelFunc call in %s treated as a no-op on program state", fname)
+		return Value{}
+	}
 	if fn == nil {
 		ex.warn("call through an unknown function value in %s: whole heap havocked", fname)
 		ws := newWriteSet()
